@@ -90,7 +90,10 @@ class TDRedfieldFoersterRelaxationTensor(RedfieldFoersterRelaxationTensor,
             else:
                 RT = TDRedfieldRelaxationTensor(ham, sbi)
             
-            self.data += RT.data
+            # with a cut-off time the time-dependent Redfield tensor is known
+            # up to the cut-off only, and so is the combined tensor
+            Ntr = RT.data.shape[0]
+            self.data = self.data[:Ntr,:,:,:,:] + RT.data
          
 
         #
@@ -173,11 +176,12 @@ class TDRedfieldFoersterRelaxationTensor(RedfieldFoersterRelaxationTensor,
             # 
             # Add the rates to the Redfield
             #
+            Ntc = self.data.shape[0]
             for b in range(Na):
                 gg = 0.0
                 for a in range(Na):
-                    self.data[:,a,a,b,b] += KF[:,a,b]
-                    gg += KF[:,a,b]
+                    self.data[:,a,a,b,b] += KF[:Ntc,a,b]
+                    gg += KF[:Ntc,a,b]
                 self.data[:,b,b,b,b] += -gg
 
             
